@@ -104,6 +104,7 @@ func Random(rng *rand.Rand, name, packageRoot string, maxTypes int) *Schema {
 				case 1:
 					if lit, ok := simpleDefault(rng, s, f.Type, 0); ok {
 						f.Default = &lit
+						f.Optional = j%3 == 0 // a field may be optional and have a default (no extra PRNG draw: set lists stay as they were)
 					}
 				}
 				t.Fields = append(t.Fields, f)
